@@ -24,7 +24,21 @@ fn check_relations_assignment(context: &CheckerContext) -> GenericResult<()> {
                 tour
             } else {
                 return match relation.type_field {
-                    RelationType::Any => Ok(()),
+                    // NOTE: vehicle can be unused, but its jobs still must not be served by another vehicle
+                    RelationType::Any => {
+                        let has_wrong_assignment = context
+                            .solution
+                            .tours
+                            .iter()
+                            .filter(|other| other.vehicle_id != relation.vehicle_id)
+                            .any(|other| get_activity_ids(other).iter().any(|id| relation.jobs.contains(id)));
+
+                        if has_wrong_assignment {
+                            Err(format!("relation {idx} has jobs assigned to another tour").into())
+                        } else {
+                            Ok(())
+                        }
+                    }
                     _ => tour.map(|_| ()),
                 };
             };
